@@ -187,7 +187,7 @@ Section WithEnv.
   Lemma In_insert_by_id A (x y : N * A) l : In x (insert_by_id y l) -> x = y \/ In x l.
   Proof.
     induction l as [|z r IH]; cbn; [intuition|].
-    destruct (N.ltb (fst y) (fst z)); cbn; [intuition|].
+    destruct (N.leb (fst y) (fst z)); cbn; [intuition|].
     intros [->|H]; [intuition|]. apply IH in H. intuition.
   Qed.
 
